@@ -345,11 +345,15 @@ ASSUME = {}
 TRUSTED_EXTRA = {}
 VARIANTS_OF = {
     "C04": {"quick": ["default", "underscore"], "thorough": ["default", "underscore"]},
-    "C07": {"quick": ["default", "underscore"], "thorough": ["default", "underscore"]},
-    "C16": {"quick": ["default", "extra"], "thorough": ["default", "extra"]},
+    "C05": {"quick": ["default", "be:idnkit"], "thorough": ["default", "be:idnkit"]},
+    "C09": {"quick": ["default", "ndebug"], "thorough": ["default", "ndebug"]},
+    "C13": {"quick": ["default", "be:idnkit"], "thorough": ["default", "be:idnkit", "be:idn"]},
+    "C15": {"quick": ["default", "be:idn"], "thorough": ["default", "be:idn", "be:idnkit"]},
+    "C07": {"quick": ["default", "underscore", "be:idn"], "thorough": ["default", "underscore", "be:idn", "be:idnkit"]},
+    "C16": {"quick": ["default", "extra", "be:idnkit+extra"], "thorough": ["default", "extra", "be:idnkit+extra", "be:idn+extra"]},
     "C06": {"quick": ["default", "extra"], "thorough": ["default", "extra", "all3"]},
-    "C17": {"quick": ["default", "rfc20", "rfc5322", "underscore"],
-            "thorough": ["default", "rfc20", "rfc5322", "underscore", "rfc20+rfc5322", "rfc20+underscore", "rfc5322+underscore", "all3"]},
+    "C17": {"quick": ["default", "rfc20", "rfc5322", "underscore", "rebuilt"],
+            "thorough": ["default", "rfc20", "rfc5322", "underscore", "rfc20+rfc5322", "rfc20+underscore", "rfc5322+underscore", "all3", "rebuilt"]},
 }
 MODES = (822, 5321, 5322, 6531)
 
@@ -662,6 +666,12 @@ def c05(ctx):
             ctx.nontrivial.add("E %d 0 %s" % (m, hx(b"a@" + d)))
             if fields(cl)[1] == "0":
                 ctx.S("address literal accepted although the bytes between the brackets contain a NUL (not exactly '[' addr ']')", op="E %d 0 %s" % (m, hx(b"a@" + d)), input=repr(d), impl=cl)
+    # the same literals through the idnkit source set, every one twice in a row (its result record is allocated by other code)
+    lit2 = [d for d in doms if d.startswith(b"[")][:: (12 if ctx.tier == "quick" else 2)]
+    ops2 = []
+    for d in lit2:
+        ops2 += ["E 6531 0 %s" % hx(b"a@" + d), "E 5321 0 %s" % hx(b"a@" + d)]
+    ctx.K("literal-idnkit", "be:idnkit", ops2, nontrivial=lambda op, ln: True)
     # the per-part functions themselves (model correspondence; ']' and NUL after the address)
     a4 = list(dict.fromkeys(gen.ipv4_strings(ctx.tier, ctx.rng)))
     a6 = list(dict.fromkeys(gen.ipv6_shapes(ctx.tier, ctx.rng)))
@@ -721,6 +731,25 @@ def c07(ctx):
                 continue
             if f[1] != "-23":
                 ctx.S("single-label non-reserved domain not rejected as not fully qualified", op="E %d 1 %s" % (m, hx(b"a@" + l)), impl=cl)
+    # the other IDN back ends (they may hand the name back in the caller's letter case), and long U-label hosts in front of the TLD
+    cv = []
+    for n in names[:: (60 if ctx.tier == "quick" else 6)] + [b"org", b"xn--p1ai", b"museum"]:
+        cv += [n, n.upper(), n.capitalize(), n[:-1] + n[-1:].upper()]
+    cv = list(dict.fromkeys(cv))
+    cvs = ctx.spec(["sT %s" % hx(l) for l in cv])
+    for v in [x for x in ctx.drives if x.startswith("be:")]:
+        for m in (6531, 5321):
+            cb = ctx.K("tld-case%d" % m, v, ["E %d 1 %s" % (m, hx(b"a@mail.iana." + l)) for l in cv], nontrivial=lambda op, ln: True)
+            for l, cl, sl in zip(cv, cb, cvs):
+                f = fields(cl)
+                if f[1] != "-2" and f[1] != sl.split(" ")[1]:
+                    ctx.S("back end %s: TLD class differs from the shipped table (case-insensitive, whole last label)" % v[3:], op="E %d 1 %s" % (m, hx(b"a@mail.iana." + l)), variant=v, impl=cl, table=sl)
+    lu = [("ж" * 40 + "." + "я" * 40 + "." + "б" * 40 + "." + "ю" * 34 + ".").encode() + t for t in ("рф".encode(), "онлайн".encode(), b"com", b"museum", b"zz")]
+    lus = ctx.spec(["sT %s" % hx(d.rsplit(b".", 1)[-1] if all(x < 128 for x in d.rsplit(b".", 1)[-1]) else b"xn--" + d.rsplit(b".", 1)[-1].decode().encode("punycode")) for d in lu])
+    cl_ = ctx.K("tld-long-ulabel", "default", ["E 6531 1 %s" % hx(b"a@" + d) for d in lu], nontrivial=lambda op, ln: True)
+    for d, cl, sl in zip(lu, cl_, lus):
+        if fields(cl)[1] != "-2" and fields(cl)[1] != sl.split(" ")[1]:
+            ctx.S("a long internationalised host name is not classified by its last label", op="E 6531 1 %s" % hx(b"a@" + d), impl=cl, table=sl)
     # the LABELS_ALLOW_UNDERSCORE build: '_' is a letter of the label, never a label boundary - the whole last label is looked up
     names = [r[0] for r in tbl]
     pick = names[:: (40 if ctx.tier == "quick" else 5)] + [b"com", b"org", b"museum", b"xn--p1ai"]
@@ -766,6 +795,14 @@ def c08(ctx):
     unl_addrs = [b"a@mail." + u for u in unl]
     resv_addrs = [b"a@example.com", b"a@www.example.net", b"a@EXAMPLE.ORG", b"a@a.b.Example.Com", b"a@x.test", b"a@localhost", b"a@x.invalid", b"a@x.onion", b"a@x.example"]
     addrs = list(dict.fromkeys(addrs + unl_addrs + resv_addrs))
+    addrs = list(dict.fromkeys(addrs + [b"a@mail.RU", b"A@IANA.ORG", b"a@x.Museum", b"a@x.XN--P1AI", b"a@x.BIZ", b"a@consulting.biz", b"a@x.name", b"a@x.pro"]))
+    # the policy in force is the one set before the LAST eav_setup: one long-lived object re-configured again and again
+    hs = []
+    hadd = [hx(x) for x in (b"a@b.com", b"a@b.ru", b"a@x.biz", b"a@example.com", b"a@nic.aero", "a@почта.рф".encode())]
+    for mode in (6531, 5321):
+        for k1, k2 in ((760, 8), (8, 760), (0, 2046), (2046, 16), (760, 744)):
+            hs.append("i;r%d;k%d;s;" % (mode, k1) + ";".join("e" + a for a in hadd) + ";k%d;s;" % k2 + ";".join("e" + a for a in hadd) + ";t0;s;e%s;t1;s;e%s;f" % (hadd[0], hadd[0]))
+    check_histories(ctx, "policy-reconfigured", hs)
     masks = range(0, 2048, 1 if ctx.tier != "quick" else 37)
     for m in MODES:
         res = {}
@@ -816,6 +853,27 @@ def c09(ctx):
                 continue
             if (f[1] == "8") != (spm[d] == "sS 1"):
                 ctx.S("address on a reserved domain not classified 'special' (or a non-reserved one classified so)", op="E %d 1 %s" % (m, hx(b"a@" + d)), input=repr(d), impl=cl, spec=spm[d])
+    # (added) long domains: the reserved suffix at the end of 250..255-octet names, in the ASCII modes and in 6531
+    tails = [b"example.com", b"EXAMPLE.NET", b"a.test", b"x.localhost", b"example.comm", b"a.tests", b"example.co", b"b.com", b"a.invalid"]
+    longd = [gen.long_host(n - len(t) - 1, tld=b"zz")[:-3] + b"." + t for n in range(249, 261) for t in tails]
+    longd = [d for d in longd if b".." not in d]
+    lsp = ctx.spec(["sS %s" % hx(d) for d in longd])
+    lho = ctx.spec(["sD 0 %s" % hx(d) for d in longd])
+    for m in MODES:
+        cl_ = ctx.K("special-long%d" % m, "default", ["E %d 1 %s" % (m, hx(b"a@" + d)) for d in longd], nontrivial=lambda op, ln: True)
+        for d, cl, sp_, ho in zip(longd, cl_, lsp, lho):
+            f = fields(cl)
+            if ho == "sD 1" and f[1] != "-2" and (f[1] == "8") != (sp_ == "sS 1"):
+                ctx.S("a long domain is classified special / not special against the reserved-name rules (its length must not matter)", op="E %d 1 %s" % (m, hx(b"a@" + d)), length=len(d), impl=cl, spec=sp_)
+    # (added) a release build (-DNDEBUG): the same answers
+    if "ndebug" in ctx.drives:
+        nd = [d for d in doms[:: (6 if ctx.tier == "quick" else 1)] if 0 not in d]
+        cn = ctx.K("special-ndebug", "ndebug", ["S %s" % hx(d) for d in nd], nontrivial=lambda op, ln: True)
+        spn = ctx.spec(["sS %s" % hx(d) for d in nd])
+        hon = ctx.spec(["sD 0 %s" % hx(d) for d in nd])
+        for d, cl, sp_, ho in zip(nd, cn, spn, hon):
+            if ho == "sD 1" and not d.endswith(b".") and (cl == "S 1") != (sp_ == "sS 1"):
+                ctx.S("in a build with -DNDEBUG a domain is classified special / not special against the reserved-name rules", op="S %s" % hx(d), variant="ndebug", impl=cl, spec=sp_)
 RULES["C09"] = "distinct domains: each reserved suffix and each one-edit neighbour, case patterns, preceded by 0-3 labels of lengths 1-63 (quick: 1-11, 62, 63); direct is_special_domain calls and whole addresses in four modes"
 
 
@@ -860,6 +918,18 @@ def c12(ctx):
         for i, d in enumerate(doms):
             if not (res[822][i][2:] == res[5321][i][2:] == res[5322][i][2:]):
                 ctx.S("ASCII modes report different domain verdict/class/flags for the same domain", op="E 822 %d %s" % (t, hx(b"a@" + d)), input=repr(d), got=[res[m][i] for m in (822, 5321, 5322)])
+    # (added) S only: a NUL inside the local part, passed with the full length - whatever the library says, it says it in all four modes
+    nuls = [b"a\0b@foo.de", b"\0@foo.de", b"ab\0@foo.de", b'"a\0b"@foo.de', b"a\0@b@foo.de", b"a\0b\0c@foo.de", b"a.b\0c.d@[1.2.3.4]"]
+    outs = {}
+    for m in MODES:
+        cn, _ = ctx.run("nul-in-local%d" % m, "default", ["E %d 0 %s" % (m, hx(x)) for x in nuls])
+        ctx.evals += len(nuls)
+        outs[m] = cn
+    for i, x in enumerate(nuls):
+        got = {m: fields(outs[m][i])[1] for m in MODES}
+        ctx.nontrivial.add("nul:" + hx(x))
+        if len(set(got.values())) != 1:
+            ctx.S("an address with a NUL inside the local part (explicit length) is decided differently by the four modes", op="E * 0 %s" % hx(x), input=repr(x), results=got)
 RULES["C12"] = "distinct addresses passing basic_email_check; the C01 corpus restricted to pure-ASCII quote-free local parts plus the C02 corpus on two domains, in all four modes and tld on/off, compared pairwise"
 
 
@@ -955,6 +1025,16 @@ def c15(ctx):
             ctx.S("eav_setup fails for a defined mode", op=op, impl=c)
         if not valid and (parts[2] != "s1" or parts[3] != "mm1"):
             ctx.S("eav_setup with an undefined mode: wrong return code or eav_errstr does not report it", op=op, impl=c)
+    # the other IDN back ends: an IDN failure is reported with the IDN code and that library's message for it
+    idnbad = [b"user@ex\xff\xfeample.org", b"a@\xff.com", "a@☕.de".encode(), b"a@xn--a.com", b"a@ab--cd.com", ("a@" + "ж" * 70 + ".рф").encode(), "a@a\u200db.com".encode(), b"a@\xc3.com"]
+    for v in [x for x in ctx.drives if x.startswith("be:")]:
+        cb = ctx.K("idn-message", v, ["P 6531 %d 760 %s" % (t, hx(x)) for t in (0, 1) for x in idnbad], nontrivial=lambda op, ln: True)
+        for cl in cb:
+            f = fields(cl)
+            if f[2] == "2" and f[3] != "idn:#%s" % f[5]:
+                ctx.S("back end %s: an IDN failure does not carry the IDN library's message for the returned code" % v[3:], op="P 6531 * 760", variant=v, impl=cl)
+            if f[2] == "2" and f[5] == "0":
+                ctx.S("back end %s: an IDN failure is reported with IDN code 0 ('success')" % v[3:], op="P 6531 * 760", variant=v, impl=cl)
     # the message always describes the latest call: validations of every kind of outcome (IDN failures included, real and injected)
     # followed by a failed eav_setup, by eav_errstr, by a successful setup and another validation
     hg = HistGen(ctx.rng)
@@ -980,8 +1060,17 @@ RULES["C15"] = "distinct (mode, tld, address) triples rejected by something othe
 def c16(ctx):
     strs = diag_corpus(ctx)
     strs = list(dict.fromkeys(strs + [b"a@" + d for d in gen.literal_domains("quick", ctx.rng) if 0 not in d and d.startswith(b"[")]))
+    # long internationalised host names (long in UTF-8, short as A-labels): the EAV_EXTRA copy is the domain as given
+    strs += [b"a@" + ((a_ * n1 + "." + b_ * n1 + "." + a_ * n1 + b_ + "." + t_).encode()) for a_, b_ in (("中", "国"), ("ж", "я")) for n1 in (30, 45) for t_ in ("com", "рф")]
+    strs = list(dict.fromkeys(strs))
     spi = dict(zip(strs, ctx.spec(["sI %s" % hx(split_addr(s)[1] or b"") for s in strs])))
-    for v in ("default", "extra"):
+    for v in ["default", "extra"] + [x for x in ctx.drives if x.startswith("be:")]:
+        if v.startswith("be:"):
+            strs_v = strs[:: (6 if ctx.tier == "quick" else 1)]
+        else:
+            strs_v = strs
+        _all = strs
+        strs = strs_v
         for m in MODES:
             for t in (0, 1):
                 ops = ["E %d %d %s" % (m, t, hx(s)) for s in strs]
@@ -1001,7 +1090,7 @@ def c16(ctx):
                     elif rc < 0 and (-rc) not in (23, 26) and flags != "000": bad = "flag set although the address is syntactically invalid"
                     elif t == 0 and rc > 0: bad = "TLD class reported with TLD checking off"
                     elif rc > 9: bad = "result code above the TLD classes"
-                    if v == "extra" and not bad:
+                    if (v == "extra" or v.endswith("+extra")) and not bad:
                         lp, dm = f[4], f[5]
                         if rc >= 0:
                             want_d = D[1:-1] if D.startswith(b"[") else D
@@ -1011,6 +1100,7 @@ def c16(ctx):
                             bad = "EAV_EXTRA lpart/domain not NULL for a syntactically invalid address"
                     if bad:
                         ctx.S(bad, op=op, variant=v, input=repr(s), impl=cl)
+        strs = _all
 RULES["C16"] = "distinct (mode, tld, address) triples passing basic_email_check; corpora of C01-C10, four modes, tld on/off, builds with and without EAV_EXTRA"
 
 
@@ -1244,8 +1334,19 @@ def c13(ctx):
                 scripts.append("i;r%d;s;e%s;e%s;m;e%s;f" % (m, hx(a), hx(b), hx(a)))
     scripts = list(dict.fromkeys(scripts))
     check_histories(ctx, "history", scripts)
+    # an address that overflows every integer parser, then ordinary literals (nothing such as errno may carry over)
+    big = [b"a@[99999999999999999999.0.2.1]", b"a@[1.2.3.99999999999999999999999]", b"a@[IPv6:::ffff:99999999999999999999.1.1.1]"]
+    okl = [b"a@[192.0.2.1]", b"a@[IPv6:::ffff:192.0.2.1]", b"a@[1.2.3.4]", b"a@b.com"]
+    ex = []
+    for m in MODES:
+        for b_ in big:
+            ex.append("i;r%d;s;e%s;" % (m, hx(b_)) + ";".join("e" + hx(o) for o in okl) + ";f;i;r%d;s;" % m + ";".join("e" + hx(o) for o in okl) + ";f")
+    check_histories(ctx, "after-overflowing-octet", ex)
     # two objects side by side: nothing one of them does is visible through the other
     check_two_objects(ctx, "two-objects", two_object_scripts(ctx, "ж@почта.рф".encode()))
+    for v in [x for x in ctx.drives if x.startswith("be:")]:
+        check_two_objects(ctx, "two-objects", two_object_scripts(ctx, "ж@почта.рф".encode()), variant=v)
+        check_histories(ctx, "history", [sc for sc in scripts if "x" not in sc][:: (7 if ctx.tier == "quick" else 1)], variant=v)
 RULES["C13"] = "distinct legal call histories (init first, is_email only after a successful setup, free last): exhaustive sequences of 3 (4 thorough) operations from a pool of 13 after init+setup, random histories of length 10-200 (1000 thorough); every eav_is_email compared with a fresh object given the same settings; LeakSanitizer at exit"
 
 
@@ -1313,6 +1414,16 @@ def c17(ctx):
                 r[("E", m, t)] = ctx.K("email%d" % m, v, ["E %d %d %s" % (m, t, hx(e)) for e in mails])
         res[v] = r
     base = res["default"]
+    # "the default build has all three off" also when the tree was built with the options before
+    if "rebuilt" in res:
+        for key, lines in res["rebuilt"].items():
+            for i, (a, b) in enumerate(zip(base[key], lines)):
+                if a != b:
+                    src = locs if key[0] == "L" else doms if key == "D" else mails
+                    ctx.S("a default build made after an option build (make clean in between) does not behave as the default build", op="%s ... %s" % (str(key), hx(src[i])), variant="rebuilt",
+                          default=a, rebuilt=b)
+                    break
+    variants = [v for v in variants if v != "rebuilt"]
     sp_us = ctx.spec(["sD 1 %s" % hx(d) for d in doms])
     sp_u8 = ctx.spec(["sU %s" % hx(l) for l in locs])
     for v in variants:
@@ -1397,6 +1508,13 @@ def c18(ctx):
         for _ in range(30 if ctx.tier == "quick" else 300):
             scripts.append(hg.random_history(n, H_ADDRS, inject=True))
     scripts = list(dict.fromkeys(scripts))
+    pol = [b"a@consulting.biz", b"a@x.name", b"a@x.pro", b"a@b.com", b"a@b.ru", b"a@nic.aero", b"a@x.arpa", b"a@x.test", b"a@example.com", "a@почта.рф".encode(), b"a@x.museum"]
+    polops = ["P %d 1 %d %s" % (m, k, hx(a)) for m in MODES for k in (760, 0, 2046, 8, 16, 32, 64, 128, 256, 512, 744, 728) for a in pol]
+    polres = {be: ctx.K("policy", be, polops, nontrivial=lambda op, ln: True) for be in bes}
+    for be in bes[1:]:
+        for op, a, b in zip(polops, polres["be:idn2"], polres[be]):
+            if a != b:
+                ctx.S("back end %s applies the TLD policy differently than the libidn2 build" % be[3:], op=op, variant=be, idn2=a, other=b)
     out = {}
     for be in bes:
         r = {}
@@ -1465,6 +1583,8 @@ def idn_domains(ctx):
                 lab += rng.choice(["-", "1", "a", "-x"])
             labs.append(lab)
         out.append(".".join(labs).encode())
+    # labels that IDNA2008 allows only thanks to CONTEXTJ (ZWJ after a virama, ZWNJ between joining letters), and hyphens in positions 3-4
+    out += [x.encode() for x in ("क्\u200dष.com", "नमस्\u200cते.भारत", "می\u200cخواهم.com", "a\u200db.com", "ab--cd.com", "r3--example.org", "mail.ab--cd.de", "xn--abc.com", "xn--0.com", "mail.xn--bcher.example")]
     # U-labels in front of reserved names and of ordinary TLDs of every class
     for u in ("почта", "例え", "ελ", "münchen"):
         for r in ("localhost", "test", "example", "invalid", "onion", "example.com", "example.net", "example.org", "EXAMPLE.COM", "com", "ru", "museum", "arpa", "zz"):
@@ -1488,10 +1608,13 @@ def c10(ctx):
     uops = ["U 0 %s" % hx(u) for u in us]
     cu_, lu_ = ctx.run("direct", "default", uops)
     ctx.evals += len(uops)
+    direct_fail = {}
     for u, li in zip(us, open(os.path.join(ctx.scr.dir, "direct_default.leanin")).read().split("\n")[1:]):
         m = re.search(r" @ (-?\d+) (\S+)", li)
         if m and m.group(1) == "0" and m.group(2) != "-":
             direct[u] = bytes.fromhex(m.group(2))
+        elif m and m.group(1) != "0":
+            direct_fail[u] = m.group(1)
     for t in (0, 1):
         ops = ["E 6531 %d %s" % (t, hx(b"a@" + u)) for u in us]
         c, l = ctx.run("ulabel", "default", ops)
@@ -1505,6 +1628,9 @@ def c10(ctx):
         stats = collections.Counter()
         for u, cl, li in zip(us, c, lean_in):
             m = re.search(r" @ (-?\d+) (\S+)", li)
+            if u in direct_fail and fields(cl)[1] != "-2":
+                ctx.S("the IDN library refuses this domain (code %s when asked directly), yet mode 6531 does not reject the address with the IDN error" % direct_fail[u],
+                      op="E 6531 %d %s" % (t, hx(b"a@" + u)), impl=cl)
             if not m:
                 stats["no-conversion"] += 1
                 # the address was decided without asking the converter; if the converter accepts the domain, its A-label spelling
@@ -1671,20 +1797,23 @@ def c14(ctx):
     for v in ctx.drives:
         if v.startswith("x:tsan-"):
             plan += [(v, 8, 2), (v, 3, 4)] if ctx.tier == "quick" else [(v, 8, 6), (v, 3, 12), (v, 16, 3)]
-    for v, nth, rounds in plan:
-        p = subprocess.run([ctx.drive(v), fn, str(nth), str(rounds)], stdout=subprocess.PIPE, stderr=subprocess.PIPE, env=env)
+    plan = [(v, nth, rounds, None) for v, nth, rounds in plan]
+    for loc in ctx.locales():
+        plan += [("x:tsan", 8, 1, loc), ("x:tsan", 3, 2, loc)]
+    for v, nth, rounds, loc in plan:
+        p = subprocess.run([ctx.drive(v), fn, str(nth), str(rounds)], stdout=subprocess.PIPE, stderr=subprocess.PIPE, env=dict(env, **(loc or {})))
         out = p.stdout.decode(errors="replace")
         m = re.search(r"calls=(\d+) mismatches=(\d+)", out)
         calls = int(m.group(1)) if m else 0
         ctx.evals += calls
         ctx.nontrivial.update("thr%d:%s" % (nth, hx(a)) for a in addrs)
-        ctx.streams["%s %d threads x %d rounds" % (v[2:], nth, rounds)] = dict(ops=calls, k_mismatch=0)
+        ctx.streams["%s %d threads x %d rounds%s" % (v[2:], nth, rounds, (" locale " + loc["VERIF_LOCALE"]) if loc else "")] = dict(ops=calls, k_mismatch=0)
         if len(ctx.samples) < 6:
             ctx.samples.append(dict(threads=nth, rounds=rounds, output=out.strip(), address=repr(ctx.rng.choice(addrs))))
         err = p.stderr.decode(errors="replace")
         if "ThreadSanitizer: data race" in err or p.returncode == 66:
             loc = re.findall(r"#0 (\S+) (\S+)", err)[:4]
-            ctx.S("unsynchronised access to shared mutable memory (ThreadSanitizer data race)", op="mt[%s] %d threads x %d rounds over %d addresses" % (v[2:], nth, rounds, len(addrs)),
+            ctx.S("unsynchronised access to shared mutable memory (ThreadSanitizer data race)", op="mt[%s%s] %d threads x %d rounds over %d addresses" % (v[2:], ("," + loc["VERIF_LOCALE"]) if loc else "", nth, rounds, len(addrs)),
                   report=err[:1500], frames=loc)
         elif m and int(m.group(2)) != 0:
             ctx.S("a thread obtained an outcome different from the sequential run", op="mt %d threads x %d rounds" % (nth, rounds), output=out)
@@ -1739,6 +1868,17 @@ def c06(ctx):
             for t in (0, 1):
                 ctx.K("api%d" % m, v, ["P %d %d %d %s" % (m, t, 760, hx(s)) for s in mails + edge + [b"a@" + d for d in lit] if 0 not in s], nontrivial=lambda op, ln: fields(ln)[2] not in ("3", "16"))
                 ctx.K("big%d" % m, v, ["P %d %d %d %s" % (m, t, 760, hx(s)) for s in big], nontrivial=lambda op, ln: True)
+    # the caller's string is the caller's: inputs in read-only pages directly in front of an inaccessible page
+    ro = [s for s in (mails[::3] + edge[::5] + [b"a@" + d for d in lit[::4]] + ["ж@почта.рф".encode(), "a@例え.テスト".encode(), b"user@example.org", b"a@[IPv6:2001:db8::1]", b"a@[::1]"]) if 0 not in s]
+    for m in MODES:
+        for t in (0, 1):
+            ctx.K("readonly-input%d" % m, "default", ["P %d %d %d %s" % (m, t, 760, hx(s)) for s in ro], nontrivial=lambda op, ln: True, env={"VERIF_ROMEM": "1"})
+    ctx.K("readonly-parts", "default", ["L %d %s %s" % (m, hx(s), hx(gen.AT)) for m in MODES for s in loc[::9] if 0 not in s] + ["D %s 00" % hx(s) for s in dom[::9] if 0 not in s] +
+          ["U 1 %s" % hx(d) for d in idn_domains(ctx)[::9] if 0 not in d], env={"VERIF_ROMEM": "1"})
+    # the EAV_EXTRA record of the idnkit source set (allocated by other code): accepted and rejected addresses in turn, every mode
+    for v in [x for x in ctx.drives if x.startswith("be:") and x.endswith("+extra")]:
+        rej = [b"no-at-sign", b"a..b@x", b"", b"a@[1.2.3", b"a@b.com", b"bad@", b"a@[1.2.3.4]", "ж@почта.рф".encode(), b'"a b"@b.ru', b"a@-b.com"]
+        ctx.K("extra-record", v, ["P %d %d %d %s" % (m, t, 760, hx(x)) for m in MODES for t in (0, 1) for x in rej + mails[::40]], nontrivial=lambda op, ln: True)
     hg = HistGen(rng)
     scripts = [hg.random_history(n, H_ADDRS + [b"a@" + d for d in lit[:40]], inject=True) for n in (5, 20, 100) for _ in range(30 if ctx.tier == "quick" else 300)]
     ctx.K("history", "default", ["H " + sc for sc in scripts], nontrivial=lambda op, ln: True)
@@ -1810,7 +1950,7 @@ def c06(ctx):
         if p.returncode == 77:
             ctx.S("valgrind memcheck reports an error (uninitialised read, invalid access or leak)", op="memcheck slice of %d ops" % len(ops), report=p.stderr.decode(errors="replace")[:2000])
 RULES["C06"] = "distinct ops executed under ASan+UBSan+LSan with exact-size heap inputs and a poisoned heap eav_t: every byte value at every structural position, 1 KiB and 64 KiB inputs of 18 shapes x 7 placements, corpora of the other properties, call histories with injected IDN faults; callgrind instruction counts for doubling lengths"
-VARIANTS_OF["C06"] = {"quick": ["default", "extra", "x:plain", "x:gcov"], "thorough": ["default", "extra", "all3", "x:plain", "x:gcov"]}
+VARIANTS_OF["C06"] = {"quick": ["default", "extra", "be:idnkit+extra", "x:plain", "x:gcov"], "thorough": ["default", "extra", "all3", "be:idnkit+extra", "be:idn+extra", "x:plain", "x:gcov"]}
 TRUSTED_EXTRA["C06"] = ["what the compiled C actually reads and writes is a runtime fact: ASan/UBSan/LSan on every correspondence stream, valgrind memcheck and callgrind carry that half; the model-level no-fault statements are about the model"]
 
 
